@@ -710,3 +710,16 @@ def use_written(ctx, cases):
         out.append(c2)
     ctx.cov["written_vs_parsed"] = {"statements_read_back_from_text": nread, "differences": nbad}
     return out
+
+
+def search_crash(ctx, family):
+    """failing-input search used when an obligation or a build step breaks: a statement on which the implementation panics,
+    crashes or on which the harness itself fails (otherwise None: the replay then names what no longer checks)"""
+    try:
+        rows = hquery(["-mode", "gen", "-family", family, "-n", "200", "-seed", str(ctx.seed)])
+    except Exception:
+        return None
+    for r in rows:
+        if r["result"]["kind"] in ("panic", "crash", "harness", "parse_panic"):
+            return {"query": r["query"], "graph_texts": r.get("graph_texts"), "observed": r["result"]}
+    return None
